@@ -175,7 +175,9 @@ CLAIMS: dict[str, tuple[str, str, str, str]] = {
         "every pair never lands strictly inside one). Emphasis is modelled end to end (scanDelims with T1 classification tables, tokenize, "
         "balance_pairs, _postProcess; tie: `inline`) and emini_wellformed (Props/C02f.lean) proves for every source, rule subset with "
         "emphasis on, maxNesting and character classification that the inline stream is levelled from 0, balanced, and builds a tree. "
-        "MISSING: tag agreement of the two tokens of a pair in stack order at the token level, strikethrough/link/image; and K5 for the remaining block/inline rules (monitored). Both are decided by the oracle: the property's predicate on every stream, recursively, "
+        "emini_tags_nested (Props/C02g.lean): its opening and closing tokens pair up by tag in stack order (the HTML written for them is "
+        "properly nested), from pairs_laminar via nest_of_desc. MISSING: the same through strikethrough's lone-marker swap (modelled, tied, "
+        "total — not in the nesting theorems), link/image; and K5 for the remaining block/inline rules (monitored). Both are decided by the oracle: the property's predicate on every stream, recursively, "
         "incl. a bounded-exhaustive delimiter sweep. Known finding K-C02-1 (parseInline wrapper not flagged block, "
         "pinned by a test).",
         NOTE,
